@@ -139,6 +139,16 @@ def eval_case(case):
             lines = json.loads(parseUDToJson(72, ver, memoryview(data))).get('History Log')
             if not isinstance(lines, list):
                 raise ValueError('plug-in returned no History Log lines: %r' % (lines,))
+        elif case.get('via') == 'pel':
+            # ... and as the user data section of an I/O drawer log decoded by the tool (parsePEL hands it to the plug-in)
+            from mc import pelgen, decode
+            from io_drawer.drawer_type import DRAWER_TYPES
+            ver = [dt.user_data_version for dt in DRAWER_TYPES if dt.name == case['type']][0]
+            r = decode.parse(pelgen.encode_pel(pelgen.pel_from_spec({'creator': 'M', 'sections': [
+                {'t': 'UD', 'comp': 0x2C00, 'sub': 72, 'ver': ver, 'payload': data.hex()}]})))
+            lines = (r.get('doc') or {}).get('User Data', {}).get('History Log') if r['kind'] == 'doc' else None
+            if not isinstance(lines, list):
+                raise ValueError('the decoded log shows no History Log lines: %s %r' % (r['kind'], (r.get('doc') or {}).get('User Data', r.get('msg'))))
         else:
             lines = parse_hlog_data(memoryview(data), path)
         core.disarm()
@@ -207,8 +217,10 @@ def run_chunk(chunk):
                 _do(res, {'type': t, 'data': fill.hex()})
         # every length up to well past the full record, through the plug-in entry point too (it must not trim anything)
         for n in range(1, total + 24):
-            for fill in (b'\xff' * n, bytes((i * 5 + 3) & 0xff for i in range(n))):
+            for fill in (b'\xff' * n, bytes((i * 5 + 3) & 0xff for i in range(n)), bytes(n)):
                 _do(res, {'type': t, 'data': fill.hex(), 'via': 'plugin'})
+                if n % 3 == 1 or n >= total - 1:
+                    _do(res, {'type': t, 'data': fill.hex(), 'via': 'pel'})
         offs = []
         o = 0
         for name, s in fields:
